@@ -451,6 +451,27 @@ def _pipe():
                              photon_collection=[ModelFunction(name="p", func="vxprobes.probe", arguments={"a": 0})])
 
 
+def _problem(det, pipe, seed):
+    """The fitting problem through its real constructor (only the loading of the target file is replaced, by a 2x2 frame of zeros)."""
+    import importlib
+
+    import xarray as xr
+
+    from pyxel.calibration.util import FitRange2D, FitRange3D
+    from pyxel.exposure import Readout
+    from pyxel.observation import ParameterValues
+    from pyxel.pipelines import Processor
+
+    fd = importlib.import_module("pyxel.calibration.fitting_datatree")
+    with Patch() as q:
+        q.attr(fd, "create_processor_data_array", lambda filenames: xr.DataArray(np.zeros((1, 2, 2)), dims=("processor", "y", "x")), "target file: zeros")
+        return fd.ModelFittingDataTree(
+            processor=Processor(detector=det, pipeline=pipe), variables=[ParameterValues(key="pipeline.photon_collection.p.arguments.a", values="_", boundaries=(0.0, 1.0))],
+            readout=Readout(), simulation_output="pixel", generations=1, population_size=2, fitness_func=lambda simulated, target, weighting: 0.0, file_path=None,
+            target_fit_range=FitRange2D(row=slice(0, 2), col=slice(0, 2)), out_fit_range=FitRange3D(time=slice(None, None), row=slice(0, 2), col=slice(0, 2)),
+            target_filenames=["target.npy"], pipeline_seed=seed, with_inherited_coords=True)
+
+
 def plumb(mode):
     import pyxel
     from pyxel.exposure import Exposure, Readout
@@ -504,14 +525,7 @@ def plumb(mode):
             elif mode in ("fitness", "apply_parameters"):
                 from pyxel.calibration.fitting_datatree import ModelFittingDataTree
 
-                prob = ModelFittingDataTree.__new__(ModelFittingDataTree)
-                prob._variables = [ParameterValues(key="pipeline.photon_collection.p.arguments.a", values="_", boundaries=(0.0, 1.0))]
-                prob.pop, prob.readout, prob.pipeline_seed = 2, Readout(times=[1.0]), s
-                prob._with_inherited_coords, prob.sim_output, prob.sim_fit_range = True, "pixel", None
-                prob.weighting = prob.weighting_from_file = None
-                prob.fitness_func = lambda simulated, target, weighting: 0.0
-                prob.param_processor_list = [Processor(detector=det, pipeline=pipe)]
-                prob.all_target_data = [np.zeros((2, 2))]
+                prob = _problem(det, pipe, s)
                 if mode == "fitness":
                     prob.fitness(np.array([0.5]))
                 else:
@@ -563,14 +577,7 @@ def _run_concrete(mode, seed):
         else:
             from pyxel.calibration.fitting_datatree import ModelFittingDataTree
 
-            prob = ModelFittingDataTree.__new__(ModelFittingDataTree)
-            prob._variables = [ParameterValues(key=key, values="_", boundaries=(0.0, 1.0))]
-            prob.pop, prob.readout, prob.pipeline_seed = 2, Readout(times=[1.0]), seed
-            prob._with_inherited_coords, prob.sim_output, prob.sim_fit_range = True, "pixel", None
-            prob.weighting = prob.weighting_from_file = None
-            prob.fitness_func = lambda simulated, target, weighting: 0.0
-            prob.param_processor_list = [Processor(detector=det, pipeline=pipe)]
-            prob.all_target_data = [np.zeros((2, 2))]
+            prob = _problem(det, pipe, seed)
             if mode == "fitness":
                 prob.fitness(np.array([0.5]))
             else:
